@@ -58,3 +58,144 @@ Proof.
     destruct (N.ltb_spec (e_index e0) (m_offset d + 1)); [lia|]. cbn [m_ents m_snap m_hard]. auto. }
   destruct A as (A1 & A2 & A3). destruct (is_empty_hard (rd_hard rd)); cbn [m_ents m_snap m_hard]; auto.
 Qed.
+
+Lemma m_offset_firstn d n t : m_ents d <> [] -> (0 < n)%nat ->
+  match firstn n (m_ents d) ++ t with e :: _ => e_index e | [] => 0 end = m_offset d.
+Proof. unfold m_offset. destruct (m_ents d) as [|a l]; [congruence|]. destruct n; [lia|]. reflexivity. Qed.
+
+Lemma saved_offset d rd : wfm d -> ready_ok d rd -> m_offset (saved d rd) = m_offset d.
+Proof.
+  intros W R. destruct (saved_form d rd W R) as (E & _ & _). unfold m_offset at 1. rewrite E. unfold new_ents.
+  pose proof (ro_ents _ _ R) as RE. destruct (rd_ents rd) as [|e0 t]; [reflexivity|]. destruct RE as (R1 & _ & _).
+  apply m_offset_firstn; [apply (wf_ne _ W)|]. pose proof (wf_commit _ W). lia.
+Qed.
+Lemma last_len d : m_ents d <> [] -> m_last d + 1 = m_offset d + N.of_nat (length (m_ents d)).
+Proof. intros H. unfold m_last. destruct (m_ents d); [congruence|]. cbn [length]. lia. Qed.
+
+Lemma saved_wf d rd : wfm d -> ready_ok d rd -> wfm (saved d rd).
+Proof.
+  intros W R. destruct (saved_form d rd W R) as (E & _ & EH). pose proof (saved_offset d rd W R) as EO.
+  pose proof (ro_ents _ _ R) as RE. pose proof (wf_commit _ W) as WC. pose proof (last_len d (wf_ne _ W)) as LL.
+  constructor.
+  - rewrite E. unfold new_ents. destruct (rd_ents rd) as [|e0 t]; [apply (wf_ne _ W)|]. intros H. apply app_eq_nil in H. destruct H; discriminate.
+  - rewrite EO, E. unfold new_ents. destruct (rd_ents rd) as [|e0 t] eqn:EE; [apply (wf_cont _ W)|]. destruct RE as (R1 & R2 & R3).
+    set (off := N.to_nat (e_index e0 - m_offset d)).
+    assert (Lf : length (firstn off (m_ents d)) = off) by (apply firstn_length_le; unfold off; lia).
+    intros k Hk. rewrite app_length, Lf in Hk. destruct (Nat.ltb_spec k off) as [Hlt|Hge].
+    + rewrite app_nth1 by lia. rewrite nth_firstn_lt by auto. apply (wf_cont _ W). lia.
+    + rewrite app_nth2 by lia. rewrite Lf. rewrite (R3 (k - off)%nat) by lia. unfold off in *. lia.
+  - rewrite EO, EH. destruct (ro_hard _ _ R) as [H|H]; [rewrite H; auto|]. destruct (is_empty_hard (rd_hard rd)); lia.
+Qed.
+
+(* what was durable and committed stays so: a later Ready appends above the commit index and never lowers it *)
+Lemma saved_keeps d rd e : wfm d -> ready_ok d rd -> durable_has d e -> durable_has (saved d rd) e.
+Proof.
+  intros W R (H1 & H2 & H3 & H4). destruct (saved_form d rd W R) as (E & _ & EH). pose proof (saved_offset d rd W R) as EO.
+  pose proof (ro_ents _ _ R) as RE. pose proof (last_len d (wf_ne _ W)) as LL.
+  assert (Hc : h_commit (m_hard d) <= h_commit (m_hard (saved d rd))).
+  { rewrite EH. destruct (ro_hard _ _ R) as [H|H]; [rewrite H; lia|]. destruct (is_empty_hard (rd_hard rd)); lia. }
+  unfold durable_has, pos in *. rewrite EO, E. unfold new_ents. split; [auto|]. split; [lia|].
+  destruct (rd_ents rd) as [|e0 t]; [auto|]. destruct RE as (R1 & R2 & R3).
+  set (off := N.to_nat (e_index e0 - m_offset d)). set (p := N.to_nat (e_index e - m_offset d)) in *.
+  assert (Lf : length (firstn off (m_ents d)) = off) by (apply firstn_length_le; unfold off; lia).
+  assert (Hp : (p < off)%nat) by (unfold p, off; lia).
+  split; [rewrite app_length, Lf; lia|]. rewrite app_nth1 by lia. rewrite nth_firstn_lt by auto. exact H4.
+Qed.
+
+(* ---- runs and crash points ---- *)
+Definition run_effects (rds : list (bool * ready)) : list effect := flat_map (fun lr => iteration order_src (fst lr) (snd lr)) rds.
+Inductive run_ok : mem -> list (bool * ready) -> Prop :=
+| run_nil d : run_ok d []
+| run_cons d l rd rest : ready_ok d rd -> run_ok (saved d rd) rest -> run_ok d ((l, rd) :: rest).
+
+(* the invariant at every instant: the store is well formed and holds every applied entry as committed *)
+Definition TI (t : trace) : Prop := wfm (t_durable t) /\ forall e dur, In (e, dur) (t_applied t) -> durable_has (t_durable t) e.
+
+Lemma fold_sends_TI t ms : TI t -> TI (fold_left exec_effect (map ESend ms) t) /\ t_durable (fold_left exec_effect (map ESend ms) t) = t_durable t.
+Proof. intros H. rewrite fold_sends. split; [exact H|reflexivity]. Qed.
+Lemma fold_applies_TI t cs : TI t -> (forall e, In e cs -> durable_has (t_durable t) e) ->
+  TI (fold_left exec_effect (map EApply cs) t) /\ t_durable (fold_left exec_effect (map EApply cs) t) = t_durable t.
+Proof.
+  intros [W A] H. rewrite fold_applies. split; [|reflexivity]. split; [exact W|]. cbn [t_applied t_durable]. intros e dur Hin.
+  apply in_app_or in Hin. destruct Hin as [Hin|Hin]; [eapply A; eauto|]. apply in_map_iff in Hin. destruct Hin as (x & Ex & Hx).
+  injection Ex as <- _. auto.
+Qed.
+Lemma save_TI t rd : TI t -> ready_ok (t_durable t) rd ->
+  TI (exec_effect t (ESave (rd_hard rd) (rd_ents rd) (rd_snap rd))) /\
+  t_durable (exec_effect t (ESave (rd_hard rd) (rd_ents rd) (rd_snap rd))) = saved (t_durable t) rd.
+Proof.
+  intros [W A] R. cbn [exec_effect t_durable t_applied]. fold (saved (t_durable t) rd). split; [|reflexivity]. split.
+  - apply saved_wf; auto.
+  - intros e dur Hin. apply saved_keeps; auto. eapply A; eauto.
+Qed.
+
+(* a crash inside one iteration of the ready loop: after any prefix of its effects the invariant holds *)
+Lemma iter_prefix_TI t l rd p r : TI t -> ready_ok (t_durable t) rd -> iteration order_src l rd = p ++ r ->
+  TI (fold_left exec_effect p t) /\ (r = [] -> t_durable (fold_left exec_effect p t) = saved (t_durable t) rd).
+Proof.
+  intros T R E. assert (SN : snapE rd = []) by (unfold snapE; rewrite (ro_nosnap _ _ R); reflexivity).
+  set (sv := ESave (rd_hard rd) (rd_ents rd) (rd_snap rd)) in *.
+  (* prefixes of a block of sends / of applies *)
+  assert (PS : forall t0 ms q z, map ESend ms = q ++ z -> TI t0 -> TI (fold_left exec_effect q t0) /\ t_durable (fold_left exec_effect q t0) = t_durable t0).
+  { intros t0 ms q z Em T0. apply map_eq_app in Em. destruct Em as (m1 & m2 & _ & <- & _). apply fold_sends_TI; auto. }
+  assert (PA : forall t0 cs q z, map EApply cs = q ++ z -> TI t0 -> (forall e, In e cs -> durable_has (t_durable t0) e) ->
+               TI (fold_left exec_effect q t0) /\ t_durable (fold_left exec_effect q t0) = t_durable t0).
+  { intros t0 cs q z Em T0 H0. apply map_eq_app in Em. destruct Em as (c1 & c2 & -> & <- & _). apply fold_applies_TI; auto.
+    intros e He. apply H0. apply in_or_app. auto. }
+  destruct (save_TI t rd T R) as [Ts Ds]. fold sv in Ts, Ds.
+  assert (CM : forall e, In e (rd_committed rd) -> durable_has (t_durable (exec_effect t sv)) e) by (intros e He; rewrite Ds; apply (ro_comm _ _ R); auto).
+  destruct l.
+  - (* leader: sends, Save, applies, Advance *)
+    rewrite iter_leader, SN in E. cbn [app] in E. fold sv in E.
+    destruct (app_split _ _ _ _ E) as [(z & E1 & ->)|(z & -> & E1)].
+    + destruct (PS t _ _ _ E1 T) as [T1 _]. split; [exact T1|]. intros H. apply app_eq_nil in H. destruct H; discriminate.
+    + rewrite fold_left_app. destruct (fold_sends_TI t (rd_msgs rd) T) as [T1 D1]. set (t1 := fold_left exec_effect (map ESend (rd_msgs rd)) t) in *.
+      assert (R1 : ready_ok (t_durable t1) rd) by (rewrite D1; exact R).
+      destruct z as [|a z]; [cbn [fold_left]; split; [exact T1|intros ->; discriminate]|].
+      simpl in E1. injection E1 as <- E1. cbn [fold_left]. destruct (save_TI t1 rd T1 R1) as [T2 D2]. fold sv in T2, D2.
+      set (t2 := exec_effect t1 sv) in *.
+      assert (CM2 : forall e, In e (rd_committed rd) -> durable_has (t_durable t2) e) by (intros e He; rewrite D2, D1; apply (ro_comm _ _ R); auto).
+      destruct (app_split _ _ _ _ E1) as [(y & E2 & ->)|(y & -> & E2)].
+      * destruct (PA t2 _ _ _ E2 T2 CM2) as [T3 _]. split; [exact T3|]. intros H. apply app_eq_nil in H. destruct H; discriminate.
+      * rewrite fold_left_app. destruct (fold_applies_TI t2 (rd_committed rd) T2 CM2) as [T3 D3].
+        set (t3 := fold_left exec_effect (map EApply (rd_committed rd)) t2) in *.
+        destruct y as [|b y]; [cbn [fold_left]; split; [exact T3|intros ->; discriminate]|].
+        simpl in E2. injection E2 as <- E2. destruct y; [|discriminate]. cbn [fold_left exec_effect].
+        split; [exact T3|]. intros _. rewrite D3, D2, D1. reflexivity.
+  - (* not the leader: Save, applies, sends, Advance *)
+    rewrite iter_nonleader, SN in E. cbn [app] in E. fold sv in E.
+    destruct p as [|a p]; [cbn [fold_left]; split; [exact T|intros ->; discriminate]|].
+    injection E as <- E. cbn [fold_left]. set (t2 := exec_effect t sv) in *.
+    destruct (app_split _ _ _ _ E) as [(y & E2 & ->)|(y & -> & E2)].
+    + destruct (PA t2 _ _ _ E2 Ts CM) as [T3 _]. split; [exact T3|]. intros H. apply app_eq_nil in H. destruct H as [_ H]. apply app_eq_nil in H. destruct H; discriminate.
+    + rewrite fold_left_app. destruct (fold_applies_TI t2 (rd_committed rd) Ts CM) as [T3 D3].
+      set (t3 := fold_left exec_effect (map EApply (rd_committed rd)) t2) in *.
+      destruct (app_split _ _ _ _ E2) as [(x & E3 & ->)|(x & -> & E3)].
+      * destruct (PS t3 _ _ _ E3 T3) as [T4 _]. split; [exact T4|]. intros H. apply app_eq_nil in H. destruct H; discriminate.
+      * rewrite fold_left_app. destruct (fold_sends_TI t3 (rd_msgs rd) T3) as [T4 D4].
+        set (t4 := fold_left exec_effect (map ESend (rd_msgs rd)) t3) in *.
+        destruct x as [|b x]; [cbn [fold_left]; split; [exact T4|intros ->; discriminate]|].
+        simpl in E3. injection E3 as <- E3. destruct x; [|discriminate]. cbn [fold_left exec_effect].
+        split; [exact T4|]. intros _. rewrite D4, D3. exact Ds.
+Qed.
+
+(* THE RUN-LEVEL STATEMENT.  For every store that is well formed, every run of Readys that honours the contract, and
+   every crash point - after any prefix [p] of the effects of the whole run (between two sends, before or after a durable
+   write, between two applies, before or after Advance): every entry applied so far is in the durable log at its index,
+   at or below the durable commit index.  (Applying an entry is what releases the caller: every acknowledged write is
+   there.) *)
+Theorem acked_durable_at_every_crash : forall rds d p r, wfm d -> run_ok d rds -> run_effects rds = p ++ r ->
+  let t := exec d p in
+  wfm (t_durable t) /\ forall e dur, In (e, dur) (t_applied t) -> durable_has (t_durable t) e.
+Proof.
+  intros rds d p r W RO E. cbv zeta. unfold exec.
+  assert (G : forall rds t p r, TI t -> run_ok (t_durable t) rds -> run_effects rds = p ++ r -> TI (fold_left exec_effect p t)).
+  { clear. induction rds as [|[l rd] rest IH]; intros t p r T RO E.
+    - simpl in E. destruct p; [exact T|discriminate].
+    - inversion RO as [|? ? ? ? R RO']; subst. unfold run_effects in E. cbn [flat_map fst snd] in E. fold (run_effects rest) in E.
+      destruct (app_split _ _ _ _ E) as [(z & E1 & ->)|(z & -> & E1)].
+      + apply (iter_prefix_TI t l rd p z T R E1).
+      + rewrite fold_left_app. destruct (iter_prefix_TI t l rd (iteration order_src l rd) [] T R) as [T1 D1]; [rewrite app_nil_r; reflexivity|].
+        apply (IH _ z r T1); [rewrite (D1 eq_refl); exact RO'|exact E1]. }
+  apply (G rds _ p r); auto. split; [exact W|]. intros e dur [].
+Qed.
